@@ -21,7 +21,7 @@ func init() {
 	Register(&Check{
 		ID:  "C04",
 		Run: runC04,
-		Rule: "complete product: 9 base input types {Int, Float, String, Boolean, ID, Int64, Float64, enum E, input I} x 7 wrappers {T, T!, [T], [T!], [T]!, [T!]!, [[T]]} x client values " +
+		Rule: "complete product: 10 base input types {Int, Float, String, Boolean, ID, Int64, Float64, enum E, input I, Time} x 7 wrappers {T, T!, [T], [T!], [T]!, [T!]!, [[T]]} x client values " +
 			"(integers around +-2^31, 2^32, 2^53; floats incl. 1e40; strings; booleans; null; enum member/non-member; lists; input objects complete / missing required / unknown field / null in non-null / nested) " +
 			"x delivery {literal, JSON-decoded variable, native Go numeric kinds, variable default, variable over default, variable nested in list literal, variable nested in input-object literal} x {RS, AS, FS}; " +
 			"oracle one-directional: if the resolver was invoked the argument conforms to T and denotes the client's value; a clearly uncoercible value yields an error and no invocation. " +
@@ -220,7 +220,7 @@ type c04Schema struct {
 	enumVals []string
 }
 
-var c04Bases = []string{"Int", "Float", "String", "Boolean", "ID", "Int64", "Float64", "E", "I"}
+var c04Bases = []string{"Int", "Float", "String", "Boolean", "ID", "Int64", "Float64", "E", "I", "Time"}
 
 func c04Wrap(base string, w int) *world.T {
 	n := world.N(base)
@@ -345,6 +345,17 @@ func mustFail(t *world.T, v CV) bool {
 		return v.K == cvList || v.K == cvObj
 	case "Boolean":
 		return v.K == cvList || v.K == cvObj
+	case "Time":
+		// a custom scalar: an RFC 3339 text is its spelling; what a number means (seconds since 1970 in ggql) is the scalar's
+		// own business and demanded neither way; anything else is no time
+		switch v.K {
+		case cvStr:
+			_, err := time.Parse(time.RFC3339Nano, v.S)
+			return err != nil
+		case cvInt, cvFloat, cvBig:
+			return false
+		}
+		return true
 	case "E":
 		switch v.K {
 		case cvEnum, cvStr:
@@ -520,6 +531,33 @@ func conform(t *world.T, v CV, d interface{}) string {
 			return fmt.Sprintf("Float argument arrived as %T(%v)", d, d)
 		}
 		return ""
+	case "Time":
+		tt, ok := d.(time.Time)
+		if !ok {
+			return fmt.Sprintf("Time argument arrived as %T(%v)", d, d)
+		}
+		switch v.K {
+		case cvStr:
+			want, err := time.Parse(time.RFC3339Nano, v.S)
+			if err != nil || !want.Equal(tt) {
+				return fmt.Sprintf("client wrote %q, resolver got %s", v.S, tt.Format(time.RFC3339Nano))
+			}
+		// (numbers are seconds since 1970 in ggql; demanded only where the nanosecond count fits 64 bits - beyond that what
+		// instant a number names is not something the statement settles)
+		case cvInt:
+			if v.I > -9e9 && v.I < 9e9 && tt.Unix() != v.I {
+				return fmt.Sprintf("client wrote %d, resolver got %s", v.I, tt.Format(time.RFC3339Nano))
+			}
+		case cvFloat:
+			if v.F > -9e9 && v.F < 9e9 && math.Abs(float64(tt.UnixNano())/1e9-v.F) > 1e-3 {
+				return fmt.Sprintf("client wrote %v, resolver got %s", v.F, tt.Format(time.RFC3339Nano))
+			}
+		case cvBig:
+			// above int64 seconds: whatever instant that is, it is not demanded
+		default:
+			return fmt.Sprintf("client wrote %s, resolver got %s", v.Literal(), tt.Format(time.RFC3339Nano))
+		}
+		return ""
 	case "String", "ID":
 		s, ok := d.(string)
 		if !ok {
@@ -620,6 +658,8 @@ func c04Scalars() []CV {
 		cvU(math.MaxUint64), cvU(math.MaxUint64 - 6), cvU(1 << 63), // wrap to -1, -7 and MinInt64 when narrowed through int64
 		cvF(1.5), cvF(2.0), cvF(0.1), {K: cvFloat, F: 1e40, Text: "1e40"}, cvF(-2147483649.0),
 		cvS("a"), cvS("12"), cvS(""), cvS("RED"), cvB(true), cvB(false), cvE("RED"), cvE("PURPLE"),
+		// texts of instants (with and without a fraction and an offset) and a date that is no RFC 3339 instant
+		cvS("2020-01-02T03:04:05Z"), cvS("2020-01-02T03:04:05.123456789+02:00"), cvS("2020-01-02"),
 	}
 }
 
@@ -677,6 +717,8 @@ func validLit(t *world.T) string {
 		return "false"
 	case "E":
 		return "BLUE"
+	case "Time":
+		return "\"2001-02-03T04:05:06Z\""
 	}
 	return "{req: 77}"
 }
@@ -700,6 +742,8 @@ func validCV(t *world.T) CV {
 		return cvB(false)
 	case "E":
 		return cvE("BLUE")
+	case "Time":
+		return cvS("2001-02-03T04:05:06Z")
 	}
 	return cvO("req", cvI(77))
 }
@@ -723,6 +767,8 @@ func validJSON(t *world.T) interface{} {
 		return false
 	case "E":
 		return "BLUE"
+	case "Time":
+		return "2001-02-03T04:05:06Z"
 	}
 	return map[string]interface{}{"req": float64(77)}
 }
@@ -1131,7 +1177,7 @@ func runC04(c *core.Ctx) {
 	}
 	c04Growth(c, sdl, strats)
 	c04RefusedGrowth(c, sdl, strats)
-	c.R.Bound = "complete product (9 bases x 7 wrappers x value menu x deliveries x 3 strategies); input type extended by a later load (3 extensions x cold / warm root x 4 deliveries x 3 strategies)"
+	c.R.Bound = "complete product (10 bases x 7 wrappers x value menu x deliveries x 3 strategies); input type extended by a later load (3 extensions x cold / warm root x 4 deliveries x 3 strategies)"
 }
 
 // c04Growth: the input type I gains fields through a later load ("extend input I {...}") on a root that has (warm) or has not
